@@ -356,7 +356,11 @@ class GriffeLoader:
                         continue
 
                 # Collect every imported object.
-                expanded.extend(self._expand_wildcard(member))  # type: ignore[arg-type]
+                try:
+                    expanded.extend(self._expand_wildcard(member))  # type: ignore[arg-type]
+                except (AliasResolutionError, CyclicAliasError) as error:
+                    logger.debug("Could not expand wildcard import %s in %s: %s", member.name, obj.path, error)
+                    continue
                 to_remove.append(member.name)
 
             # Recurse in unseen submodules.
